@@ -24,6 +24,7 @@ Left out (named in notes/C14.md): the console user (`ip == all_users[0]`, write(
 model reads them.
 -/
 import NV.Gen.C14
+import NV.C14.Telnet
 
 namespace NV.C14
 
@@ -135,6 +136,12 @@ structure St where
   script : List SendRes := []
   /-- remaining scripted reactions of this user's `receive_snoop` (read only by the several-user world, Multi.lean) -/
   react : List React := []
+  /-- `connection_type == PORT_TELNET`: input goes through the telnet decoder copy_chars -/
+  telnet : Bool := false
+  /-- telnet decoder state of `copy_chars` (`ip->state`, `sb_buf`) -/
+  tel : Tel := {}
+  /-- this user's input has stored `MODE_EDIT | MODE_TRAPSIG` into the global `telnet_sb_lm_mode[4]` -/
+  lmSet : Bool := false
   /-- ghost: all bytes accepted by send so far, newest first -/
   sentR : List Byte := []
   /-- ghost: all bytes ever stored into the ring, newest first -/
@@ -310,6 +317,12 @@ inductive Op where
   | react (rs : List React)
   /-- `react = react[1..]`: the user's `receive_snoop` took its next scripted reaction -/
   | popReact
+  /-- the connection is a PORT_TELNET one -/
+  | setTelnet
+  /-- a plain `flush_message (ip)` call made by the driver in the middle of something (copy_chars): no state line -/
+  | flushQ
+  /-- copy_chars processed one input byte: new decoder state; `lm`: it stored into the global `telnet_sb_lm_mode[4]` -/
+  | telSet (t : Tel) (lm : Bool)
   deriving Repr
 
 def stEv (s : St) : Ev :=
@@ -349,6 +362,11 @@ def step (s : St) : Op → St × List Ev
   | .showSt => (s, [stEv s])
   | .react rs => ({ s with react := s.react ++ rs }, [])
   | .popReact => ({ s with react := s.react.tail }, [])
+  | .setTelnet => ({ s with telnet := true }, [])
+  | .flushQ =>
+    if s.closed then (s, [])
+    else let r := flushMsg s; (r.1, r.2.1)
+  | .telSet t lm => ({ s with tel := t, lmSet := s.lmSet || lm }, [])
 
 def runFrom : St → List Op → St × List Ev
   | s, [] => (s, [])
